@@ -54,6 +54,9 @@ def gen_cases(ctx, deep=False):
         for xs in ([1, 2], [2, 1], [1, 1], [2, 2]):
             for sched in two:
                 cases.append({'kind': 'translator', 'warm': warm, 'xs': xs, 'sched': sched})
+    for warm, xs in ((1000, [1000, 1000]), (1000, [1000, 2]), (None, [1000, 1000])):      # equal values that are distinct int objects
+        for sched in two:
+            cases.append({'kind': 'translator', 'warm': warm, 'xs': xs, 'sched': sched})
     three = list(interleavings([3, 3, 3]))
     for warm, xs in ((0, [1, 2, 3]), (None, [1, 2, 1]), (0, [1, 1, 2]), (1, [1, 2, 2])):
         scheds = three if big else rng.sample(three, 120 if deep else 40)
@@ -180,6 +183,8 @@ def correspondence(ctx):
                 dist['cross_thread_table_entries'] += 1
                 if row['raised'] is None:
                     disagreements.append({'what': 'cross-thread scenario could not be prepared', 'input': row}); continue
+                if row['raised'] and row.get('exc') != 'TransactionError':
+                    disagreements.append({'what': 'cross-thread use ends in %s instead of the TransactionError of the guard' % row.get('exc'), 'input': row})
                 exprs.append('Bool.eqb (guard %s %s) %s' % (row['op'], vlib.cbool(row['loaded']), vlib.cbool(row['raised'])))
                 meta.append((row, row)); nontriv.add('cross:%s:%s' % (row['op'], row['loaded']))
             if r['lock_left_held']: disagreements.append({'what': 'write lock left held after the cross-thread scenarios', 'input': 'cross'})
@@ -228,6 +233,9 @@ def oracle(c, r):
                 bad.append(('setonly:%s:wrong-data' % c['cache'], 'thread %d (input %d) received the value of input class %d' % (t, i, y['cls'])))
     else:
         for row in r['table']:
+            if row['raised'] and row.get('exc') != 'TransactionError':
+                bad.append(('cross-thread:%s:%s:wrong-error:%s' % (row['op'], 'loaded' if row['loaded'] else 'unloaded', row.get('exc')),
+                            'thread B used an object of thread A\'s live session (%s): not rejected by the guard, it failed later with %s' % (row['op'], row['detail'])))
             if row['raised'] is False:
                 bad.append(('cross-thread:%s:%s' % (row['op'], 'loaded' if row['loaded'] else 'unloaded'),
                             'thread B used an object of thread A\'s live session (%s, data %s in A\'s cache) and no error was raised: %s'
